@@ -42,7 +42,7 @@ RULE = (
 ASSUMPTIONS = [
     "protein names are distinct and contain neither ', ' nor '; ' (the group / shared-peptide strings are split on them)",
     "the peptide set of a protein is computed by the digest reference of C17 (mc/ref/digest.py), enzyme [KR], "
-    "min_length 6, max_length 50, no clipping, not semi",
+    "min_length 6, max_length 50 (family length-limits: 7/50 and 6/7, i.e. peptides exactly as long as a limit), no clipping, not semi",
     "a database in which no target protein yields a peptide is outside the property (read_fasta refuses it)",
     "a protein contained in two maximal proteins is required to be in at least one of the two groups (the statement "
     "says 'belongs to a protein group'); joining only one is caught only through the order-independence clause",
@@ -56,6 +56,7 @@ DP = [p[:-1][::-1] + p[-1] for p in TP]  # decoy counterparts: reversed interior
 PEPS = TP + DP  # token i -> peptide
 EMPTY_SEQ = "GGK"  # shorter than min_length: yields no peptide
 MIN_LEN, MAX_LEN, ENZYME = 6, 50, "[KR]"
+LIMITS = [MIN_LEN, MAX_LEN]  # the (min_length, max_length) in force; the length-limits family uses (7, 50) and (6, 7)
 HASHSEEDS = list(range(8))
 
 _PP_CACHE = {}
@@ -73,10 +74,10 @@ def fasta_text(entries):
 
 
 def peptides_of(tokens, mc):
-    key = (tuple(tokens), mc)
+    key = (tuple(tokens), mc, tuple(LIMITS))
     r = _PP_CACHE.get(key)
     if r is None:
-        must, allowed = ref_digest(sequence(tokens), ENZYME, mc, MIN_LEN, MAX_LEN, False, False)
+        must, allowed = ref_digest(sequence(tokens), ENZYME, mc, LIMITS[0], LIMITS[1], False, False)
         assert must == allowed
         if mc == 0:
             assert must == {PEPS[t] for t in tokens}, (tokens, must)
@@ -106,7 +107,7 @@ def read(path, mc, prefix, explorer=None):
     import mokapot
     import mokapot.parsers.fasta as fasta_module
 
-    kw = dict(missed_cleavages=mc, min_length=MIN_LEN, max_length=MAX_LEN, enzyme=ENZYME, decoy_prefix=prefix)
+    kw = dict(missed_cleavages=mc, min_length=LIMITS[0], max_length=LIMITS[1], enzyme=ENZYME, decoy_prefix=prefix)
     try:
         if explorer is None:
             p = mokapot.read_fasta(str(path), **kw)
@@ -143,7 +144,7 @@ print("@@" + json.dumps(out))
 
 def read_in_fresh_interpreter(paths_cases, hashseed):
     """read_fasta on several files in ONE fresh interpreter with the given hash seed."""
-    req = {"repo": str(REPO), "cases": [dict(path=str(p), mc=c["mc"], prefix=c["prefix"], min=MIN_LEN, max=MAX_LEN,
+    req = {"repo": str(REPO), "cases": [dict(path=str(p), mc=c["mc"], prefix=c["prefix"], min=LIMITS[0], max=LIMITS[1],
                                              enzyme=ENZYME) for p, c in paths_cases]}
     env = dict(os.environ, PYTHONHASHSEED=str(hashseed), PYTHONWARNINGS="ignore")
     r = subprocess.run(["/venv/bin/python", "-c", _SUB], input=json.dumps(req), capture_output=True, text=True,
@@ -210,12 +211,14 @@ def judge(case, outcome, pp, acc):
 
 
 def make_case(entries, mc, prefix, family, **kw):
+    if LIMITS != [MIN_LEN, MAX_LEN]:
+        kw["limits"] = list(LIMITS)
     return dict(entries=[[n, list(t)] for n, t in entries], mc=mc, prefix=prefix, family=family, **kw)
 
 
 def case_key(case):
     return hash((tuple((n, tuple(t)) for n, t in case["entries"]), case["mc"], case["prefix"],
-                 json.dumps(case.get("e4"), sort_keys=True), case.get("hashseed")))
+                 json.dumps(case.get("e4"), sort_keys=True), case.get("hashseed"), tuple(case.get("limits", ()))))
 
 
 # ---------------------------------------------------------------------------------------------------
@@ -225,6 +228,7 @@ def explore_structure(spec, acc, scratch_dir):
     """spec = dict(entries, mc, prefix, family, orders='all'|[perm...], e4_dev=None|1|2, e4_orders='first'|'first+reversed'|'all')."""
     entries = [(n, tuple(t)) for n, t in spec["entries"]]
     mc, prefix, family = spec["mc"], spec["prefix"], spec["family"]
+    LIMITS[:] = spec.get("limits", (MIN_LEN, MAX_LEN))
     pp = prot_peps_of(entries, mc)
     nt = nontrivial(pp)
     k = len(entries)
@@ -295,6 +299,7 @@ def check_case(case, acc):
     try:
         entries = [(n, tuple(t)) for n, t in case["entries"]]
         mc, prefix = case["mc"], case["prefix"]
+        LIMITS[:] = case.get("limits", (MIN_LEN, MAX_LEN))
         pp = prot_peps_of(entries, mc)
         path = d / "db.fasta"
         path.write_text(fasta_text(entries))
@@ -504,6 +509,17 @@ def specs(quick):
                 ent = [(f"P{i + 1}", t) for i, t in enumerate(ms)]
                 S.append(dict(entries=ent, mc=mc, prefix="decoy_", family=f"mc{mc}", orders="all",
                               e4_dev=1 if (mc == 1 and k <= 2) else None, e4_orders="first"))
+    # F6 length limits on the boundary: every peptide is exactly min_length (7, 50) or exactly max_length (6, 7) long, so
+    # a one-peptide protein is as long as the limit; with targets only, and with mirrored decoys
+    for limits in ((7, 50), (6, 7)):
+        for k in (1, 2, 3):
+            for ms in multisets(sub4 if k <= 2 or not quick else sub3, k):
+                ent = [(f"P{i + 1}", t) for i, t in enumerate(ms)]
+                S.append(dict(entries=ent, mc=0, prefix="decoy_", family="length-limits", orders="all", limits=limits))
+                if k <= 2:
+                    ent2 = ent + [(f"decoy_P{i + 1}", mirror(tk)) for i, tk in enumerate(ms)]
+                    S.append(dict(entries=ent2, mc=0, prefix="decoy_", family="length-limits", orders="all", limits=limits))
+                    S.append(dict(entries=ent, mc=1, prefix="decoy_", family="length-limits", orders="all", limits=limits))
     if not quick:
         ot4 = ordered_tuples(4)
         for k in (1, 2):
@@ -515,6 +531,7 @@ def specs(quick):
 
 def worker(item):
     kind, payload = item
+    LIMITS[:] = (MIN_LEN, MAX_LEN)
     if kind == "conformance":
         return conformance_worker(payload)
     acc = Acc()
